@@ -143,9 +143,14 @@ def run(case, ctx):
         # label values beyond 2^24, label maps not in ascending order of the prediction labels
         r = gen.rng(ctx.seed, "c04huge", i)
         dtype = [np.uint32, np.uint64][i % 2]
-        pl = [int(x) for x in r.choice(np.arange(2**24, 2**24 + 2**20), size=4, replace=False)] + [3]
-        rl = [2, 1, int(2**24 + 5), 7]
+        base = [2**24, 2**25][(i // 2) % 2]
+        pl = [int(x) for x in r.choice(np.arange(base, base + 2**20), size=4, replace=False)] + [3]
+        rl = [2, 1, int(base + 5), 7]
         r.shuffle(pl)
+        if i % 3 == 0:
+            # both sides use the same few huge values in another order (renaming chains a -> b, b -> c)
+            rl = [pl[1], pl[2], pl[0], 7]
+            ctx.count("f:C04.huge_labels_shared_between_sides")
         refa = np.zeros(40, dtype=dtype)
         pred = np.zeros(40, dtype=dtype)
         for k, (a, b) in enumerate(zip(pl[:4], rl)):
@@ -160,7 +165,7 @@ def run(case, ctx):
         # sparse volumes beyond 2^18 / 2^20 / 2^22 voxels, instances in the first and last voxels, unmatched prediction
         # in the far corner; also a prediction map without any background voxel
         pred, refa = gen.big_volume_pair(ctx.seed, i, ctx.tier)
-        if i % 6 == 5 and pred.size <= 2**21:
+        if i % 6 == 1 and pred.size <= 2**21:
             pred = pred.copy()
             pred[pred == 0] = 9  # one big unmatched "rest" instance: no background in the prediction
             ctx.count("f:C04.big_volume_without_background")
